@@ -227,7 +227,15 @@ class Engine:
             if isinstance(a, (VSub, VParam)):
                 return t.eq(a.ident, b.ident)
             raise OutOfReach('== on %s' % a.kind)
-        return t.app('pyeq', t.BOOL, self.to_dyn(a, st), self.to_dyn(b, st))
+        # a value of unknown type already known to be bytes, compared with a bytes view: pointwise equality (same meaning as
+        # pyeq's recursive beq, but usable by the solvers in both polarities without induction)
+        for x, y in ((a, b), (b, a)):
+            if isinstance(x, VDyn) and isinstance(y, VBytes) and st.known(t.app('(_ is VBytes)', t.BOOL, x.t)) is True:
+                return self.bytes_eq(self.dyn_bytes(x, st), y)
+        da, db = self.to_dyn(a, st), self.to_dyn(b, st)
+        if da.smt() == db.smt() and st.known(t.or_(t.app('(_ is VRef)', t.BOOL, da), t.app('(_ is VOpq)', t.BOOL, da))) is not True:
+            return t.TRUE            # == is reflexive on the modelled value kinds (ints, bools, None, bytes, str)
+        return t.app('pyeq', t.BOOL, da, db)
 
     def bytes_eq(self, a, b):
         if a.len.op == 'int' and b.len.op == 'int':
@@ -238,10 +246,16 @@ class Engine:
             if x.len.op == 'int' and x.len.args[0] <= 16:
                 n = x.len.args[0]
                 return t.and_(t.eq(y.len, I(n)), *[t.eq(x.at(I(i)), y.at(I(i))) for i in range(n)])
-        # pointwise (no recursive function): both polarities are handled by the solvers (skolemisation / instantiation)
-        i = t.var('eq!', t.INT)
-        return t.and_(t.eq(a.len, b.len), t.forall([i], t.implies(t.and_(t.le(t.ZERO, i), t.lt(i, a.len)), t.eq(a.at(i), b.at(i))),
-                                                   pats=[[a.at(i)], [b.at(i)]]))
+        # pointwise (no recursive function): both polarities are handled by the solvers (skolemisation / instantiation).
+        # Stated over the ABSOLUTE index of each side in turn, so that the trigger (select arr j) fires for every index term.
+        def side(x, y):
+            j = t.var('eq!', t.INT)
+            lhs = t.select(x.arr, j)
+            if not lhs.free_vars() or 'eq!' not in ' '.join(lhs.free_vars()):
+                return None      # a constant array: nothing to trigger on
+            return t.forall([j], t.implies(t.and_(t.le(x.off, j), t.lt(j, t.add(x.off, x.len))), t.eq(lhs, t.select(y.arr, t.add(y.off, t.sub(j, x.off))))), pats=[[lhs]])
+        qs = [q for q in (side(a, b), side(b, a)) if q is not None]
+        return t.and_(t.eq(a.len, b.len), *qs)
 
     def from_const(self, c, st):
         if c is None:
